@@ -40,13 +40,22 @@ fi
 echo "MUTANT $(basename "$(dirname "$M")")/$(basename "$M"): suite_with_patch=$suite_with demo_with_patch=$demo_with demo_without_patch=$demo_without"
 if [ "$suite_with" != pass ]; then tail -5 "$WT/suite.log"; fi
 
-# run the checks against /repo with the patch applied
-if [ -n "$(git -C /repo status --porcelain)" ]; then echo "/repo is not clean, refusing"; exit 2; fi
-git -C /repo apply "$M/patch.diff" || exit 2
+# run the checks against /repo with the patch applied (MUTANT_ISO=1: against the scratch worktree instead, through MUX_REPO,
+# so that /repo stays untouched and several evaluations can run side by side)
 caught=""
 mkdir -p work
+if [ -n "${MUTANT_ISO:-}" ]; then
+  rm -f "$WT/$DEMO_DIR/$(basename "${DEMO:-none}")" "$WT"/*.log
+else
+  if [ -n "$(git -C /repo status --porcelain)" ]; then echo "/repo is not clean, refusing"; exit 2; fi
+  git -C /repo apply "$M/patch.diff" || exit 2
+fi
 for p in $PROPS; do
-  ./run.sh "$p" "$TIER" > "work/mutant-$p.log" 2>&1
+  if [ -n "${MUTANT_ISO:-}" ]; then
+    MUX_REPO="$WT" ./run.sh "$p" "$TIER" > "work/mutant-$p.log" 2>&1
+  else
+    ./run.sh "$p" "$TIER" > "work/mutant-$p.log" 2>&1
+  fi
   rc=$?
   if grep -q '^VIOLATION' "work/mutant-$p.log"; then
     caught="$caught $p"
@@ -55,6 +64,6 @@ for p in $PROPS; do
     echo "  $p rc=$rc: $(grep -E '^INCONCLUSIVE' work/mutant-$p.log | head -1 | cut -c1-200)"
   fi
 done
-git -C /repo checkout -- .
+[ -n "${MUTANT_ISO:-}" ] || git -C /repo checkout -- .
 echo "  caught_by:${caught:- NONE}"
 [ -n "$caught" ]
